@@ -74,6 +74,12 @@ CHECKS = {
         text="TLC proves ChunkInvariant for every symbol stream up to length 5 (7 symbols) and every byte-class stream up to length 6 under EVERY partition, and MatchesLossy for the byte stage; each stream is decoded by the real SseDecoder/EventFrameMapper under all token-boundary partitions, every single byte cut and one byte at a time, and must equal the whole-stream decode and the model's reference; byte-class and framing streams (CRLF, multi-line data, comments, event names, invalid JSON, [DONE], missing final blank line, multi-byte text) are sent through real session runs with every cut set and must give the same provider/text frames with contiguous seqs.",
         note="Value fidelity is represented by byte classes (ascii, 2/3/4-byte lead, continuation, never-valid); the TCP chunk boundaries are assumed to reach reqwest as written (verified on this image).",
         ref="4 C15"),
+    "C20": dict(
+        engine="Surface",
+        technique="TLA+ spec Surface (UI state as a fold over arbitrary frame sequences: bounded window, lookup by seq, tool summaries, bounded output) checked with TLC; every generated sequence folded by the real TuiState/FrameStore and rendered on a TestBackend at all widths; observations compared with the model",
+        text="TLC proves WindowBounded, OutputBounded and LookupSound on every frame sequence up to the bound (seqs from {0,1,2,5,u64::MAX} with gaps, repeats and inversions, two streams mixed, orphan terminal frames, unknown ids; capacities 1..3) and prints each with the predicted window, lookups, tool statuses and output length; the real state must agree (window, 'that frame or nothing' for every probed seq and its neighbours, tool fold, exact ASCII output length), be identical on a second run, stay within its bounds with multi-byte payloads at the truncation limits, and render without a panic at widths 1..44 x heights x modes x views x overlays x stalled.",
+        note="rip-cli's headless renderers (binary crate) are not reached; payload values are represented by ASCII and one multi-byte pattern.",
+        ref="4 C20"),
 }
 
 NOT_YET = {}
